@@ -3,7 +3,7 @@
    of the clauses that need the fixes F1 / F2 go through [src_fixes_all], so reverting a fix in
    the source breaks them. *)
 From Coq Require Import ZArith NArith List Bool Lia.
-From NV Require Import Gen.Gen_LibmemConsts Gen.Gen_LibmemTabs Libmem_Model Libmem_Basics Libmem_Steps Libmem_Proofs Libmem_Alloc Libmem_Hist.
+From NV Require Import Gen.Gen_LibmemConsts Gen.Gen_LibmemTabs Libmem_Model Libmem_Basics Libmem_Steps Libmem_Proofs Libmem_Alloc Libmem_Hist Libmem_Realloc.
 Import ListNotations.
 Open Scope Z_scope.
 
@@ -26,6 +26,17 @@ Lemma main_stale_offer_refused w k off o w1 res1 ops :
   rs_kind (snd (step ns ex src_fixes w2 (OpCommit k))) = KErr /\
   w_state (fst (step ns ex src_fixes w2 (OpCommit k))) = w_state w2.
 Proof. apply stale_offer_refused; rewrite src_fixes_all; reflexivity. Qed.
+
+Lemma main_failed_realloc_noop s id nodes types s' res : Inv s -> NoEmpty s ->
+  realloc ns ex src_fixes s id nodes types = (s', res) -> rs_kind res <> KOk -> s' = s.
+Proof. intros I NE. apply realloc_fail_noop; [exact I|exact NE|]. rewrite src_fixes_all. reflexivity. Qed.
+
+Lemma main_realloc_ok s id nodes types s' res : Inv s ->
+  realloc ns ex src_fixes s id nodes types = (s', res) -> rs_kind res = KOk ->
+  is_live id (live s) = true /\ msub (zone_of id (live s)) (rs_zone res) = true /\
+  rs_zone res = zone_of id (live s') /\ map r_id (live s') = map r_id (live s) /\
+  (forall q, In q (live s) -> msub (r_zone q) (zone_of (r_id q) (live s')) = true).
+Proof. intros I. apply realloc_ok; [exact I|]. rewrite src_fixes_all. reflexivity. Qed.
 
 Lemma main_reachable_offers_le ops : offers_le (run ns ex src_fixes init_world ops).
 Proof. apply run_offers_le. apply init_offers_le. Qed.
